@@ -366,6 +366,8 @@ struct conf_node_string *conf_register_string(struct conf_node_object *parent, e
     struct conf_node_string *cnode;
 
     cnode = conf_register_node(parent, name, CONF_STRING, sizeof(*cnode));
+    if (cnode->subtype != subtype)
+        memset(&cnode->parsed, 0, sizeof(cnode->parsed));
     cnode->subtype = subtype;
     cnode->def_value = def_value;
     conf_parse_string_value(cnode);
@@ -748,6 +750,7 @@ static void conf_parse_entry(struct conf_parse *parse, struct conf_node_object *
             node = conf_parse_get_child(parent, name, CONF_STRING, sizeof(*node));
             xfree(node->value);
             node->value = string;
+            node->parsed.p_string = string;
             if ((ch == '}') && (parent != &parse->root))
                 return;
         } else if (ch == ',') {
